@@ -147,15 +147,37 @@ def classify(res, tag, model=None):
         if res.get("rc") == 97:
             return [("violation", "valgrind memcheck reported an error in the probe run: " + err[-1500:], None)]
         return [("inconclusive", "probe crashed outside the bindings: rc=%s %s" % (res.get("rc"), err[-400:]), None)]
+    hole_anon = model is not None and anon_member_after_zero_width(model)
     for mm in res["mism"]:
         if mm.kind == "harness":
             out.append(("inconclusive", mm.text, None))
         else:
-            out.append(("violation", mm.text, mm.sig))
+            sig = mm.sig
+            if sig is None and hole_anon and re.search(r"offset/size|says `V |bytes differ|fill \d+", mm.text):
+                # recorded: the hole a zero-width bit-field opens in front of an ANONYMOUS struct/union member is padded behind that member
+                # (libclang reports no offset for anonymous members), so everything inside it is read from the wrong bytes
+                sig = "c02.hole-before-anonymous-member"
+            out.append(("violation", mm.text, sig))
     for (tn, path, why) in res["info"].get("hidden", []):
         out.append(("violation", "member %s.%s of the C type is not reachable through the bindings: %s" % (tn, path, why),
                     "c02.hidden:" + why.replace(" ", "-")))
     return out
+
+
+def anon_member_after_zero_width(model):
+    def walk(rec):
+        prev_zero = False
+        for f in rec.fields:
+            if f.inline is not None:
+                if f.name is None and prev_zero:
+                    return True
+                if walk(f.inline):
+                    return True
+            prev_zero = (f.bits == 0) or (prev_zero and f.bits == 0)
+            if f.bits != 0:
+                prev_zero = False
+        return False
+    return any(walk(r) for r in model.records)
 
 
 def first_error(err):
